@@ -89,7 +89,10 @@ def gen_spec(rng, nlayers=None, nwn=None, ngas=None, contribs=None, emission=Fal
         T=([rng.uniform(300, 2500)] if rng.random() < 0.4 else
            [rng.uniform(300, 2500) for _ in range(n)]),
         contribs=contribs,
-        cia=dict(pair='H2-He', xsec=10 ** (rng.uniform(-55, -45) + np.array([rng.uniform(-1, 1) for _ in range(m)]))),
+        cia=dict(pair='H2-He', xsec=10 ** (rng.uniform(-55, -45) + np.array([rng.uniform(-1, 1) for _ in range(m)])),
+                 # further pairs of the same contribution (the fill gases are H2 and He)
+                 extra=[dict(pair=p_, xsec=10 ** (rng.uniform(-55, -45) + np.array([rng.uniform(-1, 1) for _ in range(m)])))
+                        for p_ in (['H2-H2'] if rng.random() < 0.5 else [])]),
         cloud_P=10 ** rng.uniform(math.log10(pmin) - 1, math.log10(pmax) + 1),
         mie=dict(mix=10 ** rng.uniform(-30, -24), top=10 ** rng.uniform(math.log10(pmin), math.log10(pmax)),
                  bottom=10 ** rng.uniform(math.log10(pmin), math.log10(pmax))),
@@ -154,6 +157,8 @@ def build(spec, emission=False, direct=False, order=None, kdir=None):
             OpacityCache().add_opacity(Mem(g, o['Tg'], o['Pg'], o['tab'], o['wn'], o.get('mode', 'linear')))
     if 'CIA' in spec['contribs']:
         CIACache().add_cia(mem_cia_class()(spec['cia']['pair'], spec['wn'], spec['cia']['xsec']))
+        for e_ in spec['cia'].get('extra', []):
+            CIACache().add_cia(mem_cia_class()(e_['pair'], spec['wn'], e_['xsec']))
     chem = TaurexChemistry(fill_gases=['H2', 'He'], ratio=spec['he_h2'])
     for g in spec['gases']:
         chem.addGas(ConstantGas(g, mix_ratio=spec['mix'][g]))
@@ -181,7 +186,7 @@ def make_contrib(c, spec, CT):
     if c == 'Absorption':
         return CT.AbsorptionContribution()
     if c == 'CIA':
-        return CT.CIAContribution(cia_pairs=[spec['cia']['pair']])
+        return CT.CIAContribution(cia_pairs=[spec['cia']['pair']] + [e_['pair'] for e_ in spec['cia'].get('extra', [])])
     if c == 'Rayleigh':
         return CT.RayleighContribution()
     if c == 'SimpleClouds':
